@@ -19,7 +19,7 @@ EXPLANATION = (
     " (R5) reused destination: every entry->Ok path of parse_record_buf and try_clone_from_alignment_record overwrites or clears each of the twelve columns (a `*` sentinel must reset the column, not skip it); (R6) append-buffer discipline: every read_line/read_until site of the SAM readers and of the BAM header's text reader is preceded, on all entry paths and all cycles, by a reset of the buffer it appends to."
     " (R7) the SAM-text header sub-reader state machine (sam, bam, cram; sync and async) performs per trait method the same constant stores into its state fields as the majority of its ten copies."
     " R3 also decides that the binary reference list replaces the text dictionary only behind the is_empty() edge (sync and async), so @SQ fields that exist only in the text are not dropped."
-    " (R8) a function outside the type's module that takes the raw bytes of a 4-bit packed sequence also consults the base count (decoding the bytes alone writes the padding nibble of an odd-length read as a base). (R9) the SAM text writers hand every field to the sink whole: no raw Write::write in noodles_sam::io::writer (a short count would drop the tail of a field while the line goes on).")
+    " (R8) a function outside the type's module that takes the raw bytes of a 4-bit packed sequence also consults the base count (decoding the bytes alone writes the padding nibble of an odd-length read as a base). (R9) the SAM text writers hand every field to the sink whole: no raw Write::write in noodles_sam::io::writer (a short count would drop the tail of a field while the line goes on). (R10) no unproven narrowing `as` cast in the SAM text writers.")
 ASSUMPTIONS = ["float formatting/parsing, integer width selection for `i` tags and the header grammar are value-level (unit tests)"]
 NOT_DECIDED = ["float text forms, integer tag widths, fixed-point byte equality, full header record grammar and field order",
                "equality of SAM- and BAM-read records beyond the shared data model"]
@@ -220,6 +220,26 @@ def run(ctx):
         if k9.startswith("noodles_sam::io::writer::record") and f9.blocks:
             n9 += sum(1 for b, c in f9.calls() if (c.get("f") or "").endswith("::write_all"))
     ctx.floor("C06.R9", "write_all call sites in the SAM record writer (positive control of the zero-expected rule)", n9, 20)
+
+    ctx.rule("C06.R10", "A4 numbers are formatted from their own type: no unproven narrowing `as` cast (float -> int saturates and drops the "
+                        "fraction, int -> smaller int truncates) in the SAM text writers — an `f` value written through an integer is another "
+                        "number as soon as it leaves the integer's range")
+    from .. import a4 as _a4
+    n10 = 0
+    for s10 in _a4.narrowing_casts(fb, lambda k_, f_: bool(re.match(r"<?noodles_sam::(io::writer|r#async::io::writer)", k_))):
+        n10 += 1
+        f10 = fb.fns[s10["fn"]]
+        ctx.saw_fn(f10)
+        if s10["discharged"]:
+            ctx.ok("C06.R10", "%s %s->%s" % (s10["root"], s10["frm"], s10["to"]), "proven: " + s10["discharged"], "%s:%d" % (f10.file, s10["line"]))
+        else:
+            ctx.violation("C06.R10", "C06.R10/narrowing-cast/%s/%s->%s" % (s10["root"], s10["frm"], s10["to"]),
+                          "%s converts %s to %s with `as` on the way to the SAM text: the cast saturates / truncates silently, so a value outside "
+                          "the target range is written as a different number (SAM and BAM then disagree)" % (s10["root"], s10["frm"], s10["to"]),
+                          "%s:%d" % (f10.file, s10["line"]))
+    tot10 = sum(1 for f_ in fb.fns.values() if f_.blocks for blk in f_.blocks if not blk.get("cu") for st in blk["s"]
+                if st[0] == "=" and st[2][0] == "cast" and st[2][1] in ("IntToInt", "FloatToInt"))
+    ctx.floor("C06.R10", "`as` casts seen workspace-wide (positive control of the matcher)", tot10, 100)
 
     ctx.rule("C06.R4", "A3 pairing: RNEXT '=' produced only by the mate-name writer and expanded by the parser's mate arm")
     eqs = [k for k, c in fb.consts.items() if k.startswith(S) and c.get("v", c.get("raw")) in (0x3d, "3d") and re.search(r"(EQ|SAME|IDENTICAL)", k.split("::")[-1])]
